@@ -1384,6 +1384,54 @@ def witnesses(ctx: Ctx) -> None:
 
 
 # ---------------------------------------------------------------- entry points
+WILD_PROBES = [('', 'a'), ('', 'zz'), (T, 'q'), (T, 'zz'), (F, 'g'), (F, 'z'), (U, 'z')]
+
+
+def wild_family(ctx: Ctx, drv: Optional[Driver], tmp: Path) -> None:
+    """Systematic family over the wildcard positions: EVERY ordered pair (c1, c2) of constraint forms of the
+    version (##any, ##other, ##local, ##targetNamespace, lists with / without the absent and the target
+    namespace, the empty list, 1.1 notNamespace / notQName) is put
+      gg : c1 in the first referenced group, c2 in the second  (receiver of the intersection = c1)
+      gl : c1 in the local anyAttribute, c2 in a referenced group  (receiver = the local wildcard)
+      ext / restr : c1 local, c2 in the base type  (union / restriction; a sample of the pairs in the quick tier)
+    and the resulting type is judged like every other declaration set (built group against the AST reading and
+    against the Lean port of _parse; one instance per probe name of every namespace region, the absent
+    namespace included, plus all of them together; four option settings)."""
+    subsets_of = lambda it: ([[[list(n), choose_value(ctx.rng, it, n)]] for n in WILD_PROBES] +      # noqa: E731
+                             [[[list(n), choose_value(ctx.rng, it, n)] for n in WILD_PROBES]])
+    for v11 in (False, True):
+        cs = wildcard_constraints(v11)
+        ver = '1.1' if v11 else '1.0'
+        for c1 in cs:
+            for c2 in cs:
+                kinds = ['gg', 'gl']
+                if ctx.rng.random() < ctx.pick(0.12, 1.0):
+                    kinds.append('ext')
+                if ctx.rng.random() < ctx.pick(0.05, 0.5):
+                    kinds.append('restr')
+                for kind in kinds:
+                    pc1, pc2 = ctx.rng.choice(PCS), ctx.rng.choice(PCS)
+                    s = {'afd': 'unqualified', 'ga': None, 'decls': [], 'wilds': {}, 'refs': [], 'pool5': 'z',
+                         'pool7': 'nil', 'base': None}
+                    if kind == 'gg':
+                        s['wilds'] = {'AG1': {'c': c1, 'pc': pc1}, 'AG2': {'c': c2, 'pc': pc2}}
+                        s['refs'] = ['AG1', 'AG2']
+                    elif kind == 'gl':
+                        s['wilds'] = {'own': {'c': c1, 'pc': pc1}, 'AG1': {'c': c2, 'pc': pc2}}
+                        s['refs'] = ['AG1']
+                    elif kind == 'ext':
+                        s['wilds'] = {'own': {'c': c1, 'pc': pc1}}
+                        s['base'] = {'deriv': 'extension', 'decls': [], 'wild': {'c': c2, 'pc': pc2}}
+                    else:
+                        # a restriction must narrow the base wildcard: the base gets ##any with a weaker mode
+                        s['wilds'] = {'own': {'c': c1, 'pc': pc1}}
+                        s['base'] = {'deriv': 'restriction', 'decls': [],
+                                     'wild': {'c': dict(ANY_C), 'pc': ctx.rng.choice(
+                                         [p for p in PCS if PC_RANK[p] <= PC_RANK[pc1]])}}
+                    ctx.count(f'{ver}/wild-family:{kind}')
+                    run_set(ctx, drv, s, v11, tmp, subsets=subsets_of(intended(s)))
+
+
 def explore(ctx: Ctx, drv: Optional[Driver], n_sets: int) -> None:
     tmp = Path(tempfile.mkdtemp(prefix='verif-c03-'))
     try:
@@ -1392,6 +1440,8 @@ def explore(ctx: Ctx, drv: Optional[Driver], n_sets: int) -> None:
         for p in corpus:
             obj = json.loads(p.read_text())
             run_set(ctx, drv, obj['set'], obj['v'] == '1.1', tmp, subsets=[obj['attrs']] if 'attrs' in obj else None)
+        if n_sets:
+            wild_family(ctx, drv, tmp)
         for v11 in (False, True):
             for _ in range(n_sets):
                 s = gen_set(ctx.rng, v11)
